@@ -538,7 +538,7 @@ func (e *engine) mergeDelta() error {
 		}
 		for _, existingFact := range existingFacts {
 			if err := mergeWith(existingFact); err != nil {
-				break
+				return fmt.Errorf("merging %v with %v: %w", fact, existingFact, err)
 			}
 		}
 		if len(existingFacts) == 0 {
